@@ -144,7 +144,7 @@ def run(out: common.Outcome):
                 out.report({"kind": "rejected-without-pdb"}, {"pre": pre, "post": o}, {"input": i})
 
     # ---- parse_tx_spec_config / int() / auto default on generated strings
-    txs = [[rnd.choice(["popen", "2*popen", "ssh=x//chdir=y"]) for _ in range(rnd.randint(0, 3))] for _ in range(n_small // 2)]
+    txs = [[rnd.choice(["popen", "2*popen", "ssh=x//chdir=y", "0*popen", "0*ssh=h"]) for _ in range(rnd.randint(0, 3))] for _ in range(n_small // 2)]
     txs += [["".join(rnd.choice(TX_ALPHABET) for _ in range(rnd.randint(0, 4))) for _ in range(rnd.randint(0, 3))]
             for _ in range(n_small // 2)]
     ints = ["".join(rnd.choice(INT_ALPHABET) for _ in range(rnd.randint(0, 6))) for _ in range(n_small)]
@@ -154,6 +154,15 @@ def run(out: common.Outcome):
     res = run_jobs("drive_options.py", jobs, nproc=8)
     r_tx, r_int, r_auto = res[: len(txs)], res[len(txs): len(txs) + len(ints)], res[len(txs) + len(ints):]
     corr.compare("parse_tx_spec_config", "parse_tx", txs, r_tx, nontrivial=lambda i, o: any("*" in x for x in i))
+    # monitor: 'N*spec' expands to N workers; a list that expands to NO worker is rejected (UsageError), never accepted as []
+    import re as _re
+    for t, o in zip(txs, r_tx):
+        if all(_re.fullmatch(r"\d+\*[a-z=/]+", x) or _re.fullmatch(r"[a-z=/]+", x) for x in t):
+            n = sum(int(x.split("*")[0]) if "*" in x else 1 for x in t)
+            if n == 0 and o != ["err", "UsageError"]:
+                out.report({"kind": "tx-list-without-any-worker-accepted"}, {"tx": t, "result": o}, {"tx": t})
+            if n > 0 and isinstance(o, list) and o and o[0] != "err" and len(o) != n and not (len(o) == 2 and o[0] == "ok" and len(o[1]) == n):
+                out.report({"kind": "tx-multiplier-expansion-wrong"}, {"tx": t, "result": o, "expected_workers": n}, {"tx": t})
     corr.compare("int(str)", "py_int", ints, r_int, nontrivial=lambda i, o: o != [])
     corr.compare("auto_num_workers default", "auto_default",
                  [[[] if e is None else [e], [c]] for e, c in autos], r_auto)
